@@ -80,6 +80,10 @@ async fn one(ctx: &mut Ctx, case: u64, rng: &mut Rng) {
     for a in &uni.authors {
         store.import_author(a.clone()).unwrap();
     }
+    // a second document in the same store actor, which now and then borrows a subscriber's channel
+    // (one channel may be subscribed to several documents) and is then closed again
+    let other_doc = iroh_docs::NamespaceSecret::from_bytes(&[0xC1; 32]);
+    store.import_namespace(iroh_docs::Capability::Write(other_doc.clone())).unwrap();
     let h = act::spawn(store);
     let mut subs: Vec<Sub> = vec![];
     let mut next_sub = 0;
@@ -111,8 +115,34 @@ async fn one(ctx: &mut Ctx, case: u64, rng: &mut Rng) {
         let from = [0x50 + rng.below(3) as u8; 32];
         if rng.chance(1, 10) {
             op = 100;
+        } else if rng.chance(1, 12) {
+            op = 101;
         }
         match op {
+            101 => {
+                // another document of the same actor is opened with the channel of one of this
+                // document's subscribers and closed again while still subscribed (added after seeded
+                // change agent-C12-7): nothing happens to this document, its subscribers stay attached
+                let act_idx: Vec<usize> = subs.iter().enumerate().filter(|(_, s)| s.active).map(|(i, _)| i).collect();
+                if !act_idx.is_empty() {
+                    let i = *rng.pick(&act_idx);
+                    let o = h.open(other_doc.id(), OpenOpts::default().subscribe(subs[i].tx.clone())).await;
+                    let mut closed = false;
+                    for _ in 0..4 {
+                        match h.close(other_doc.id()).await {
+                            Ok(true) => {
+                                closed = true;
+                                break;
+                            }
+                            Ok(false) => {}
+                            Err(_) => break,
+                        }
+                    }
+                    trace.push(format!("another document borrows the channel of s{} (open -> {}) and is closed (-> {closed})", subs[i].id, o.is_ok()));
+                    ctx.count("other_document_closed_while_sharing_a_channel", closed as u64);
+                }
+                expect = Some(vec![]);
+            }
             100 => {
                 // a capability import for the open document: nothing enters the replica, no event, and
                 // every subscriber stays attached (checked by the steps that follow)
